@@ -12,6 +12,15 @@ mod seams;
 mod cli;
 mod poolcheck;
 mod sendprobe;
+#[cfg(feature = "atomic-points")]
+mod tsanrt;
+
+/// called by the instrumentation runtime before every atomic operation of instrumented code
+#[cfg(feature = "atomic-points")]
+#[inline]
+pub fn atomic_point() {
+    rayon_core::sim::preempt_point();
+}
 
 #[global_allocator]
 static GLOBAL: seams::SimAlloc = seams::SimAlloc;
